@@ -217,6 +217,7 @@ func VerifC09_AcceptSupported() {
 	// FormatFromAccept is total on every ASCII string
 	s := acceptString()
 	f := FormatFromAccept(s)
+	rt.Observe("format", uint64(f))
 	_, ok := FormatToMimeType[f]
 	rt.Assert(rt.Any(f == AUTO, ok), "accept/result-is-auto-or-supported")
 	rt.Reach("accept-end")
